@@ -131,7 +131,7 @@ Definition ab_tag (a : ablock) : N :=
 Definition ab_wrapped (a : ablock) : bool :=
   match a with ABUnknown _ _ => false | _ => true end.
 
-Definition CUSTOMER_KEY_PLACEHOLDER : bytes := zeros 10.
+(* CUSTOMER_KEY_PLACEHOLDER (ten zero bytes) is generated from the source: Gen/Consts.v *)
 
 Section Bec2.
   Variable enc mac : bytes -> option bytes -> bytes -> result bytes.
